@@ -182,6 +182,22 @@ pub struct RetryCase {
     pub min_ns: u64,
     pub max_ns: u64,
     pub ops: Vec<RetryOp>,
+    /// durations beyond what nanoseconds in a u64 can say: 0 = use the *_ns fields,
+    /// 1 = Duration::MAX, 2 = Duration::MAX / 2, 3 = Duration::MAX / 2 + 1 ns, 4 = 2^62 s
+    #[serde(default)]
+    pub min_huge: u8,
+    #[serde(default)]
+    pub max_huge: u8,
+}
+
+fn huge(sel: u8, ns: u64) -> Duration {
+    match sel {
+        1 => Duration::MAX,
+        2 => Duration::MAX / 2,
+        3 => Duration::MAX / 2 + Duration::from_nanos(1),
+        4 => Duration::from_secs(1 << 62),
+        _ => Duration::from_nanos(ns),
+    }
 }
 
 pub fn arb_retry() -> BoxedStrategy<RetryCase> {
@@ -195,15 +211,38 @@ pub fn arb_retry() -> BoxedStrategy<RetryCase> {
             let min_ns = a.min(b);
             // max is often a small multiple of min so that the cap is reached
             let max_ns = if mult < 1000 { min_ns.saturating_mul(mult).min(4_294_967_296_000_000_000) } else { a.max(b) };
-            RetryCase { min_ns, max_ns: max_ns.max(min_ns), ops }
+            RetryCase {
+                min_ns,
+                max_ns: max_ns.max(min_ns),
+                ops,
+                min_huge: 0,
+                max_huge: 0,
+            }
+        })
+        .boxed()
+        .prop_flat_map(|c| {
+            // one case in eight: "never" and its neighbours as the cap, sometimes as the start too
+            (Just(c), prop_oneof![7 => Just((0u8, 0u8)), 1 => (0u8..=4, 1u8..=4)])
+        })
+        .prop_map(|(mut c, (a, b))| {
+            if b != 0 {
+                let (lo, hi) = if a != 0 && huge(a, 0) > huge(b, 0) { (b, a) } else { (a, b) };
+                c.min_huge = lo;
+                c.max_huge = hi;
+            }
+            c
         })
         .boxed()
 }
 
 pub fn check_retry(case: &RetryCase) -> CaseResult {
     let mut ok = CaseOk::new();
-    let min = Duration::from_nanos(case.min_ns);
-    let max = Duration::from_nanos(case.max_ns);
+    let min = huge(case.min_huge, case.min_ns);
+    let max = huge(case.max_huge, case.max_ns);
+    let (min_ns, max_ns) = (min.as_nanos(), max.as_nanos());
+    if case.max_huge != 0 {
+        ok.label("cap_near_duration_max");
+    }
     let mut s = rodbus::doubling_retry_strategy(min, max);
     let mut k: u32 = 0; // consecutive failures so far
     let mut capped = false;
@@ -212,10 +251,11 @@ pub fn check_retry(case: &RetryCase) -> CaseResult {
         match op {
             RetryOp::Failed => {
                 k += 1;
-                let expect_ns: u128 = std::cmp::min(
-                    (case.min_ns as u128) << (k - 1).min(100),
-                    case.max_ns as u128,
-                );
+                let mut doubled: u128 = min_ns;
+                for _ in 1..k.min(130) {
+                    doubled = doubled.saturating_mul(2);
+                }
+                let expect_ns: u128 = std::cmp::min(doubled, max_ns);
                 let got = s.after_failed_connect();
                 if got.as_nanos() != expect_ns {
                     return Err(format!(
@@ -223,7 +263,7 @@ pub fn check_retry(case: &RetryCase) -> CaseResult {
                         i, k, min, max, got, expect_ns
                     ));
                 }
-                if expect_ns == case.max_ns as u128 && case.max_ns > case.min_ns {
+                if expect_ns == max_ns && max_ns > min_ns {
                     capped = true;
                 }
             }
